@@ -371,6 +371,21 @@ pub fn run(ctx: &Ctx) -> Report {
                 b2[fo + 4..fo + 8].copy_from_slice(&v);
                 Some(b2)
             };
+            // (3b) every pair of bit flips inside the value of an integrity attribute (a comparison that
+            // accumulates differences instead of OR-ing them lets two coordinated flips cancel)
+            if desc.starts_with("builder body0 ") || desc.starts_with("builder body1 ") {
+                for a in m.attrs.iter().filter(|a| wire::is_integrity(a.typ)) {
+                    let (v0, nbits) = (a.offset + 4, a.len * 8);
+                    for i in 0..nbits {
+                        for j in i + 1..nbits {
+                            let mut b = buf.clone();
+                            b[v0 + i / 8] ^= 0x80 >> (i % 8);
+                            b[v0 + j / 8] ^= 0x80 >> (j % 8);
+                            judge_guarded(judge, &mutant_case(buf, b, &ct, "bitpair"), &mut acc);
+                        }
+                    }
+                }
+            }
             // (3) single-bit flips and all byte substitutions
             let light = desc.starts_with("cross ");
             let in_integrity = |pos: usize| m.attrs.iter().any(|a| wire::is_integrity(a.typ) && pos >= a.offset && pos < a.end());
@@ -500,7 +515,12 @@ pub fn run(ctx: &Ctx) -> Report {
             judge_guarded(judge, &Case::new("validate", b.clone()).text(&[&creds_text(c), "unsealed"]), &mut acc2);
         }
     }
-    let acc = acc1.merge(acc2).merge(acc_inter);
+    let mut acc = acc1.merge(acc2).merge(acc_inter);
+    // thread teardown: parse / validate / inspect of sealed, corrupted and truncated buffers in the body
+    // of a thread and again from a thread-local destructor at its exit (child process)
+    crate::teardown::judge(P, "parser", &mut acc);
+    crate::teardown::callsite_sweep(P, "parser", &mut acc);
+    crate::teardown::callsite_sweep(P, "builder", &mut acc);
     let _ = n_inter;
     Report {
         acc,
@@ -699,7 +719,7 @@ pub fn judge(case: &Case, acc: &mut Acc) {
             // "after changing any byte up to and including the integrity attribute ... fails
             // validation" — for a message sealed with both algorithms that covers both attributes,
             // so a success is admissible only if no exposed integrity attribute was damaged
-            let faulted = matches!(tag, "bitflip" | "bytesub" | "pair" | "crc-preserving");
+            let faulted = matches!(tag, "bitflip" | "bytesub" | "pair" | "bitpair" | "crc-preserving");
             let fine = fine_lenient && (!faulted || correct.len() == present.len());
             if fine_lenient && !fine {
                 acc.outcome("VIOLATION: validates although an integrity attribute was corrupted");
